@@ -16,6 +16,7 @@
 from __future__ import annotations
 
 import argparse
+import copy
 import json
 import re
 import sys
@@ -844,8 +845,10 @@ def _run(args: argparse.Namespace) -> int:
 
     try:
         for idx, run_values in enumerate(runs):
-            run_context = dict(ctx_dict)
-            run_context.update(run_values)
+            # Every run starts from its OWN copy of the context values: a node that
+            # mutates a list or mapping in place must not leak into the next run.
+            run_context = copy.deepcopy(ctx_dict)
+            run_context.update(copy.deepcopy(run_values))
 
             # Only build run_space metadata when run_space is active
             metadata: Dict[str, Any] = {}
@@ -853,7 +856,7 @@ def _run(args: argparse.Namespace) -> int:
                 metadata = {
                     "trace_context": trace_context,
                     "run_space_index": idx,
-                    "run_space_context": dict(run_context),
+                    "run_space_context": copy.deepcopy(run_context),
                 }
 
             pipeline.set_run_metadata(metadata if metadata else None)
